@@ -230,6 +230,16 @@ func (rc *roundCase) run(ip string) *vh.Case {
 			}
 		}
 	}
+	// a peer must not end the round marked synced while the victim is short of the chain whose
+	// headers it validated and that chain is sufficiently heavier than what it is on
+	if out.synced && out.dec != "ban" {
+		if n := len(rc.view.States); n > 0 && rc.sc.mutH == nil {
+			pt, vt := rc.view.States[n-1], victim.CM.TipState()
+			if pt.SufficientlyHeavierThan(vt) && victim.CM.Tip() != pt.Index {
+				c.Oracle("marked-synced-short-of-tip", "the peer is marked synced although the victim is on %v and the header chain it accepted from that peer ends in %v (sufficiently heavier)", victim.CM.Tip(), pt.Index)
+			}
+		}
+	}
 	if rc.mustBan && out.dec != "ban" {
 		c.Oracle("misbehaviour-not-banned:"+rc.tags[0], "peer delivered a provably invalid block but was not reported (decision %s)", out.dec)
 	}
